@@ -471,3 +471,65 @@ Proof.
   - cbn [app]. apply (proj1 (tiling_empty_iv cl n (b, 0) _ eq_refl)) in T. exact T.
   - cbn [app]. exact T.
 Qed.
+
+(** ** runs: a delivered index (or, without one, the position of the value) is a position of the source *)
+
+Lemma pos_of_val_of e b : pos_of e (val_of e b) = b.
+Proof. unfold pos_of, val_of. destruct (e_kind e); lia. Qed.
+
+Lemma run_idx_ok_intro e r :
+  (r_cnt r <> 0 ->
+   exists b, r_val r = val_of e b /\ b + r_cnt r <= e_len e /\ match r_idx r with Some i => i = b | None => True end) ->
+  run_idx_ok e r = true.
+Proof.
+  intros H. unfold run_idx_ok. destruct (N.eqb_spec (r_cnt r) 0) as [Hz|Hz]; [reflexivity|]. cbn [orb]. cbv zeta.
+  destruct (H Hz) as (b & Hv & Hb & Hi).
+  assert (match r_idx r with Some i => i | None => pos_of e (r_val r) end = b) as ->.
+  { destruct (r_idx r) as [i|]; [exact Hi|]. rewrite Hv. apply pos_of_val_of. }
+  apply andb_true_iff. split; [apply N.eqb_eq; exact Hv|apply N.leb_le; exact Hb].
+Qed.
+
+Lemma run_idx_ok_elim e r : run_idx_ok e r = true -> r_cnt r <> 0 ->
+  exists b, r_val r = val_of e b /\ b + r_cnt r <= e_len e /\ match r_idx r with Some i => i = b | None => True end.
+Proof.
+  unfold run_idx_ok. intros H Hz. destruct (N.eqb_spec (r_cnt r) 0) as [Hz'|_]; [contradiction|]. cbn [orb] in H. cbv zeta in H.
+  apply andb_true_iff in H. destruct H as [Hv Hb]. apply N.eqb_eq in Hv. apply N.leb_le in Hb.
+  exists (match r_idx r with Some i => i | None => pos_of e (r_val r) end). split; [exact Hv|]. split; [exact Hb|].
+  destruct (r_idx r); [reflexivity|exact I].
+Qed.
+
+(** the run [b, b + c) of the source, with or without its index *)
+Lemma run_idx_ok_at e oi b c :
+  match oi with Some i => i = b | None => True end -> (c <> 0 -> b + c <= e_len e) ->
+  run_idx_ok e (mk_run oi (val_of e b) c) = true.
+Proof.
+  intros Hi Hb. apply run_idx_ok_intro. cbn [mk_run r_cnt r_val r_idx]. intros Hz. exists b. split; [reflexivity|]. split; [apply Hb; exact Hz|exact Hi].
+Qed.
+
+Lemma run_idx_ok_strip e r : run_idx_ok e r = true -> run_idx_ok e (strip_idx r) = true.
+Proof.
+  intros H. apply run_idx_ok_intro. cbn [strip_idx mk_run r_cnt r_val r_idx]. intros Hz.
+  destruct (run_idx_ok_elim e r H Hz) as (b & Hv & Hb & _). exists b. split; [exact Hv|]. split; [exact Hb|exact I].
+Qed.
+
+(** a shorter run from the same start *)
+Lemma run_idx_ok_shorter e r k : run_idx_ok e r = true -> k <= r_cnt r ->
+  run_idx_ok e (mk_run (r_idx r) (r_val r) k) = true.
+Proof.
+  intros H Hk. apply run_idx_ok_intro. cbn [mk_run r_cnt r_val r_idx]. intros Hz.
+  destruct (run_idx_ok_elim e r H) as (b & Hv & Hb & Hi); [lia|]. exists b. split; [exact Hv|]. split; [lia|exact Hi].
+Qed.
+
+(** the first [k] elements of runs that are positions of the source *)
+Lemma runs_take_idx_ok e k rs : forallb (run_idx_ok e) rs = true -> forallb (run_idx_ok e) (runs_take k rs) = true.
+Proof.
+  revert k. induction rs as [|r rs IH]; intros k H; cbn [runs_take]; [reflexivity|].
+  cbn [forallb] in H. apply andb_true_iff in H. destruct H as [Hr Hrs].
+  destruct (k =? 0); [reflexivity|]. destruct (N.leb_spec (r_cnt r) k) as [Hle|Hlt]; cbn [forallb].
+  - rewrite Hr, (IH _ Hrs). reflexivity.
+  - rewrite (run_idx_ok_shorter e r k Hr) by lia. reflexivity.
+Qed.
+
+(** the single run [b, b + c) with its index *)
+Lemma idx_ok_one e b c : (c <> 0 -> b + c <= e_len e) -> forallb (run_idx_ok e) [mk_run (Some b) (val_of e b) c] = true.
+Proof. intros H. cbn [forallb]. rewrite run_idx_ok_at; [reflexivity|reflexivity|exact H]. Qed.
